@@ -343,6 +343,11 @@ func isLocalVariableReference(
 		return false
 	}
 
+	// system = 1: an assignment target is never a call
+	if nextT != nil && nextT.IsEqualIdentifier() {
+		return true
+	}
+
 	valueT :=
 		base.GetValueT(
 			ctx.GetFrame(),
